@@ -119,6 +119,9 @@ func runProp(prop, tier, repo string, seed int, evdir string, f func(*Run), only
 				}
 			}()
 			f(r)
+			if strings.HasPrefix(prop, "C") {
+				errorsHandled(r)
+			}
 			if i == 0 && tier == "thorough" {
 				bceCrossCheck(r)
 			}
